@@ -8,6 +8,7 @@ import (
 	"strings"
 	"testing"
 
+	"github.com/freeconf/yang/meta"
 	"github.com/freeconf/yang/node"
 	"github.com/freeconf/yang/nodeutil"
 	"pgregory.net/rapid"
@@ -110,6 +111,17 @@ func c13Run(c c13Case, o *hx.Obs) {
 		return
 	}
 	o.Class("kind=%s", c.Kind)
+	if c.Kind == "json" || c.Kind == "xml" {
+		en, _, _ := dm.Resolve(root, c.Data, c.Entry)
+		switch {
+		case len(c.Entry) == 0:
+			o.Class("document at the root")
+		case en != nil && en.Kind == "list" && c.Entry[len(c.Entry)-1].Key == nil:
+			o.Class("document at a list")
+		case en != nil:
+			o.Class("document at a %s", map[bool]string{true: "list entry", false: "container"}[en.Kind == "list"])
+		}
+	}
 	if c.Mutation != "" {
 		o.Class("mutation=%s", c.Mutation)
 	}
@@ -154,7 +166,19 @@ func c13Run(c c13Case, o *hx.Obs) {
 			var s2 *node.Selection
 			s2, rerr = sel.Find(c.Text)
 			gotSel = s2 != nil
-			if s2 != nil && rerr == nil {
+			if s2 != nil && rerr == nil && (meta.IsAction(s2.Meta()) || meta.IsNotification(s2.Meta())) {
+				o.Class("found=operation")
+				if meta.IsAction(s2.Meta()) {
+					// the request body of an operation is request content as well
+					var in node.Node
+					if c.Value != "" {
+						if in, rerr = nodeutil.ReadJSON(c.Value); rerr != nil {
+							return
+						}
+					}
+					_, rerr = s2.Action(in)
+				}
+			} else if s2 != nil && rerr == nil {
 				// whatever was found must be usable
 				if _, isLeaf := interface{}(s2.Meta()).(interface{ Type() interface{} }); !isLeaf {
 					_, rerr = nodeutil.WriteJSON(s2)
@@ -356,6 +380,45 @@ func c13GenDoc(t *rapid.T) c13Case {
 	v := treeToGeneric(m, root, req)
 	var pos []jsonPos
 	collectJSON(root, v, &pos)
+	// half of the documents are aimed at a container, a list or a list entry instead of the root
+	if paths := dm.AllPaths(root, c.Data, nil); len(paths) > 0 && rapid.Bool().Draw(t, "at-entry") {
+		c.Entry = paths[rapid.IntRange(0, len(paths)-1).Draw(t, "entry")]
+		en, _, _ := dm.Resolve(root, c.Data, c.Entry)
+		_, sv, ok := dm.Resolve(root, req, c.Entry)
+		pos = nil
+		if en.Kind == "list" && c.Entry[len(c.Entry)-1].Key == nil {
+			l, _ := sv.([]interface{})
+			if !ok || l == nil {
+				l = dm.GenEntries(t, en, to)
+			}
+			pn, _, _ := dm.ParentOf(root, c.Data, c.Entry)
+			v = treeToGeneric(m, pn, dm.Tree{en.Name: l})
+			if len(v) == 0 {
+				v[en.Name] = []interface{}{}
+			}
+			pos = append(pos, jsonPos{parent: v, key: en.Name, schema: en})
+			if l2, isL := v[en.Name].([]interface{}); isL {
+				for i, e := range l2 {
+					pos = append(pos, jsonPos{parent: l2, idx: i, schema: en, entry: true})
+					if mm, isM := e.(map[string]interface{}); isM {
+						collectJSON(en, mm, &pos)
+					}
+				}
+			}
+		} else {
+			st, isT := sv.(dm.Tree)
+			if !ok || !isT {
+				st = dm.GenTree(t, en, to)
+				if en.Kind == "list" {
+					for i, k := range en.Keys {
+						st[k] = c.Entry[len(c.Entry)-1].Key[i]
+					}
+				}
+			}
+			v = treeToGeneric(m, en, st)
+			collectJSON(en, v, &pos)
+		}
+	}
 	nm := rapid.IntRange(1, 2).Draw(t, "nmut")
 	for i := 0; i < nm && len(pos) > 0; i++ {
 		p := pos[rapid.IntRange(0, len(pos)-1).Draw(t, "pos")]
@@ -434,7 +497,7 @@ func c13GenDoc(t *rapid.T) c13Case {
 var c13Docs = hx.Register(&hx.Check[c13Case]{
 	Name:    "c13-documents",
 	Journal: true,
-	Rule:    "a valid JSON or XML edit document for a generated schema with 1-2 mutations at random schema positions (object<->array<->scalar<->null, number/bool where a node is declared, list entry without its key, nested arrays, renamed / duplicated / nested elements, text in containers, children in leaves), truncation at a random byte or a stray token, applied with upsert / insert / update onto reference, map-backed Reflect and map-backed Node targets holding data; no panic or hang, the named shape mismatches must be errors, stored data stays readable; every case is non-trivial",
+	Rule:    "a valid JSON or XML edit document for a generated schema with 1-2 mutations at random schema positions (object<->array<->scalar<->null, number/bool where a node is declared, list entry without its key, nested arrays, renamed / duplicated / nested elements, text in containers, children in leaves), truncation at a random byte or a stray token, applied with upsert / insert / update at the root, a container, a list or a list entry of reference, map-backed Reflect and map-backed Node targets holding data; no panic or hang, the named shape mismatches must be errors, stored data stays readable; every case is non-trivial",
 	Gen:     c13GenDoc,
 	Run:     c13Run,
 })
@@ -446,6 +509,14 @@ func c13GenReq(t *rapid.T) c13Case {
 	o.Types = []string{"int8", "int32", "uint64", "decimal64", "string", "boolean", "enumeration", "bits", "identityref", "binary", "empty"}
 	o.KeyTypes = []string{"string", "int32", "boolean", "enumeration"}
 	m := dm.GenModule(t, o)
+	// operations: an rpc at the top, an action and a notification in every container and list of the first two levels
+	const opBody = ` input { leaf delay { type int32; } container opts { leaf o { type string; } } list il { key k; leaf k { type string; } } } output { leaf r { type string; } }`
+	m.Extra = "rpc op-reset {" + opBody + " } notification note-top { leaf x { type string; } }"
+	for _, n := range m.Top {
+		if n.Kind == "container" || n.Kind == "list" {
+			n.Extra = "action op-restart {" + opBody + " } notification note-ev { leaf x { type string; } }"
+		}
+	}
 	root := m.Root()
 	data := dm.GenTree(t, root, dm.TreeOpts{MaxEntries: 3, EasyKeys: true, EasyStrings: true, PresentPct: 80, NoEmptyStr: true})
 	c := c13Case{Module: m, Data: data, Store: "rs"}
@@ -460,7 +531,24 @@ func c13GenReq(t *rapid.T) c13Case {
 	switch rapid.IntRange(0, 4).Draw(t, "reqkind") {
 	case 0: // Find path mutations
 		c.Kind = "find"
-		switch rapid.IntRange(0, 7).Draw(t, "pathmut") {
+		switch rapid.IntRange(0, 8).Draw(t, "pathmut") {
+		case 8: // operations: the rpc / action / notification itself, steps below it, request bodies of every shape
+			base := ""
+			for i := len(target); i >= 1; i-- {
+				if n, _, _ := dm.Resolve(root, data, target[:i]); i == 1 && (n.Kind == "container" || n.Kind == "list" && target[0].Key != nil) {
+					base = renderPath(m.Name, target[:1], "", false, false) + "/"
+				}
+			}
+			opn := "op-reset"
+			if base != "" && rapid.Bool().Draw(t, "action") {
+				opn = base + "op-restart"
+			} else if rapid.IntRange(0, 3).Draw(t, "notification") == 0 {
+				opn = base + rapid.SampledFrom([]string{"note-ev", "note-top"}).Draw(t, "note")
+			}
+			c.Text = opn + rapid.SampledFrom([]string{"", "", "", "/input", "/output", "/delay", "/input/delay", "/opts", "/opts/o", "/il", "/il=a", "/r", "/x", "/x/y", "=1", "/", "/..", "/../" + opn}).Draw(t, "below")
+			c.Value = rapid.SampledFrom([]string{"", `{}`, `{"delay":5}`, `{"delay":"x"}`, `{"delay":[1]}`, `{"delay":{}}`, `{"opts":{"o":"v"}}`, `{"opts":"scalar"}`, `{"opts":[1]}`, `{"opts":null}`,
+				`{"il":[{"k":"a"}]}`, `{"il":{"k":"a"}}`, `{"il":"x"}`, `{"il":[{}]}`, `{"il":[1]}`, `{"il":null}`, `{"bogus":1}`, `[]`, `[{"delay":1}]`, `null`, `5`, `"s"`, `{"input":{"delay":5}}`, `{"r":"x"}`}).Draw(t, "body")
+			c.Mutation = "operation"
 		case 0: // key on a non-list
 			for i := len(target) - 1; i >= 0; i-- {
 				n, _, _ := dm.Resolve(root, data, target[:i+1])
@@ -614,7 +702,7 @@ func c13GenReq(t *rapid.T) c13Case {
 var c13Reqs = hx.Register(&hx.Check[c13Case]{
 	Name:    "c13-requests",
 	Journal: true,
-	Rule:    "Find paths derived from a valid path by: key on a container, step below a leaf, wrong number of compound keys, junk suffix / insertion / deletion (= / , % %zz ? & .. : NUL ...), ../ past the root, token soup; query strings over every parameter name with empty, negative, huge, malformed and schema-derived values; where=/filter= XPath text as token soup (up to 300 tokens) and as well-formed comparisons with every operator over leaves that are unset in some rows; SetValue with 27 kinds of Go values (nil, NaN, slices, maps, structs, pointers, channels, functions ...) on every leaf type; no panic or hang, key-on-container and step-below-leaf must be errors, navigation leaves the data unchanged; every case is non-trivial",
+	Rule:    "Find paths derived from a valid path by: key on a container, step below a leaf, wrong number of compound keys, junk suffix / insertion / deletion (= / , % %zz ? & .. : NUL ...), ../ past the root, token soup, rpc / action / notification names with steps below them and request bodies of every shape; query strings over every parameter name with empty, negative, huge, malformed and schema-derived values; where=/filter= XPath text as token soup (up to 300 tokens) and as well-formed comparisons with every operator over leaves that are unset in some rows; SetValue with 27 kinds of Go values (nil, NaN, slices, maps, structs, pointers, channels, functions ...) on every leaf type; no panic or hang, key-on-container and step-below-leaf must be errors, navigation leaves the data unchanged; every case is non-trivial",
 	Gen:     c13GenReq,
 	Run:     c13Run,
 })
